@@ -67,8 +67,8 @@ PROPS = {
                 state=kinds("CX", "RQ", "RS", "AI", "AB"), effects=eff("ev"), errnames=False),
     "C17": dict(profiles=["queries"], monitors=["queryExact"],
                 state=kinds("Q", "D", "B", "WD", "CX", "RQ", "RS", "AB", "EF", "OE"), effects=eff(), errnames=True),
-    "C18": dict(profiles=["mixed", "lifecycle"], monitors=["issueLaw", "requests"],
-                state=kinds("CX", "RQ", "RS", "AI", "AB", "NQ", "XQ", "NH", "XH"), effects=eff(), errnames=False),
+    "C18": dict(profiles=["mixed", "lifecycle"], monitors=["issueLaw", "requests", "queryExact"],
+                state=kinds("Q", "CX", "RQ", "RS", "AI", "AB", "NQ", "XQ", "NH", "XH"), effects=eff(), errnames=False),
     "C19": dict(profiles=["genesis"], monitors=["genesisLaw", "escrowBacked", "indexes"], state=lambda l: True,
                 effects=eff("transfer"), errnames=False),
     "C20": dict(profiles=["mixed", "authority"], monitors=["noPanic"], state=lambda l: True,
